@@ -302,57 +302,72 @@ fn report_cont(ctx: &Ctx, name: &str, r: Result<(Vec<f64>, Vec<f64>, Vec<f64>, V
 // ------------------------------------------------------------------ NUTS: rows vs per-transition positions
 
 fn nuts_rows(ctx: &Ctx) {
-    let lim_c = ctx.tier.pick(3usize, 5);
-    let lim_d = ctx.tier.pick(3usize, 5);
-    let mut jobs = vec![];
-    for c in 1..=lim_c {
-        for d in 0..=lim_d {
-            jobs.push((c, d));
+    // histories of 1..2 (quick) / 3 (thorough) run calls on ONE chain; every call is checked completely
+    let alpha: Vec<(usize, usize)> = if ctx.tier.thorough() { vec![(1, 0), (2, 0), (3, 1), (1, 3), (4, 2), (2, 5)] } else { vec![(1, 0), (2, 0), (3, 1), (1, 3), (4, 2)] };
+    let depth = ctx.tier.pick(2usize, 3);
+    let mut jobs: Vec<Vec<(usize, usize)>> = vec![];
+    for l in 1..=depth {
+        for idx in 0..alpha.len().pow(l as u32) {
+            let mut i = idx;
+            jobs.push((0..l).map(|_| { let x = alpha[i % alpha.len()]; i /= alpha.len(); x }).collect());
         }
     }
-    jobs.par_iter().for_each(|&(c, d)| {
-        let case = json!({"kind": "nuts-rows", "n_collect": c, "n_discard": d});
+    jobs.par_iter().for_each(|hist| {
+        let case = json!({"kind": "nuts-rows", "history": hist});
         ctx.evals(1);
-        ctx.transitions((c + d) as u64);
         let r = catch(|| {
-            let rec: Rc<RefCell<Vec<Vec<f64>>>> = Rc::new(RefCell::new(vec![]));
-            let r2 = rec.clone();
-            let prev = verif::set_tap(Some(Box::new(move |label, vals| {
-                if label == "nuts.end" {
-                    r2.borrow_mut().push(vals[5..].to_vec());
-                }
-            })));
             let mut s = nuts_build::<f64, BF64>(1, Some(5), false);
-            let init = v(&s.verif_chains_mut()[0].position);
-            let out = s.verif_chains_mut()[0].run(c, d);
-            let n_first = rec.borrow().len();
-            // a following run starts from the last row
-            let out2 = s.verif_chains_mut()[0].run(2, 0);
-            verif::set_tap(prev);
-            let recs = rec.borrow().clone();
-            (init, rows(&out), recs, n_first, rows(&out2))
+            let mut per_run = vec![];
+            for &(c, d) in hist.iter() {
+                let rec: Rc<RefCell<Vec<Vec<f64>>>> = Rc::new(RefCell::new(vec![]));
+                let r2 = rec.clone();
+                let prev = verif::set_tap(Some(Box::new(move |label, vals| {
+                    if label == "nuts.end" {
+                        r2.borrow_mut().push(vals[5..].to_vec());
+                    }
+                })));
+                let before = v(&s.verif_chains_mut()[0].position);
+                let out = s.verif_chains_mut()[0].run(c, d);
+                verif::set_tap(prev);
+                let after = v(&s.verif_chains_mut()[0].position);
+                per_run.push((c, d, before, rows(&out), rec.borrow().clone(), after));
+            }
+            per_run
         });
         match r {
-            Err(m) => ctx.violation(Violation::new("C09:panic(NUTS)", format!("NUTSChain::run({c},{d}) panicked: {m}"), case)),
-            Ok((init, out, recs, n_first, out2)) => {
-                if out.len() != c || out.iter().any(|r| r.len() != 2) {
-                    ctx.violation(Violation::new("C09:shape(NUTS)", format!("NUTSChain::run({c},{d}) returned {} rows", out.len()), case.clone()));
-                    return;
-                }
-                if n_first != c + d - 1 {
-                    ctx.violation(Violation::new("C09:transition-count(NUTS)", format!("NUTSChain::run({c},{d}) performed {n_first} transitions; exactly {} are needed", c + d - 1), case.clone()));
-                    return;
-                }
-                for k in 0..c {
-                    let t = d + k; // state after t transitions
-                    let want = if t == 0 { init.clone() } else { recs[t - 1].clone() };
-                    if bits(&out[k]) != bits(&want) {
-                        ctx.violation(Violation::new("C09:row-content(NUTS)", format!("NUTSChain::run({c},{d}): row {k} is not the state after {t} transitions"), case.clone()));
+            Err(m) => ctx.violation(Violation::new("C09:panic(NUTS)", format!("NUTSChain::run panicked in history {hist:?}: {m}"), case)),
+            Ok(per_run) => {
+                let mut last_row: Option<Vec<f64>> = None;
+                for (ri, (c, d, before, out, recs, after)) in per_run.iter().enumerate() {
+                    let (c, d) = (*c, *d);
+                    ctx.transitions((c + d) as u64);
+                    if out.len() != c || out.iter().any(|r| r.len() != 2) {
+                        ctx.violation(Violation::new("C09:shape(NUTS)", format!("history {hist:?}, call #{ri}: NUTSChain::run({c},{d}) returned {} rows", out.len()), case.clone()));
                         return;
                     }
-                }
-                if bits(&out2[0]) != bits(&out[c - 1]) {
-                    ctx.violation(Violation::new("C09:left-at-last-state(NUTS)", format!("NUTSChain::run({c},{d}) then run(2,0): the second run does not start from the last returned state"), case.clone()));
+                    if recs.len() != c + d - 1 {
+                        ctx.violation(Violation::new("C09:transition-count(NUTS)", format!("history {hist:?}, call #{ri}: NUTSChain::run({c},{d}) performed {} transitions; exactly {} are needed", recs.len(), c + d - 1), case.clone()));
+                        return;
+                    }
+                    if let Some(lr) = &last_row {
+                        if bits(lr) != bits(before) {
+                            ctx.violation(Violation::new("C09:left-at-last-state(NUTS)", format!("history {hist:?}: call #{ri} does not start from the last state returned by the previous call"), case.clone()));
+                            return;
+                        }
+                    }
+                    for k in 0..c {
+                        let t = d + k; // state after t transitions of THIS call
+                        let want = if t == 0 { before.clone() } else { recs[t - 1].clone() };
+                        if bits(&out[k]) != bits(&want) {
+                            ctx.violation(Violation::new("C09:row-content(NUTS)", format!("history {hist:?}, call #{ri}: NUTSChain::run({c},{d}) row {k} is not the chain's state after {t} transitions of this call ({:?} vs {:?})", out[k], want), case.clone()));
+                            return;
+                        }
+                    }
+                    if bits(after) != bits(&out[c - 1]) {
+                        ctx.violation(Violation::new("C09:left-at-last-state(NUTS)", format!("history {hist:?}, call #{ri}: after run the chain is not at the last returned state"), case.clone()));
+                        return;
+                    }
+                    last_row = Some(out[c - 1].clone());
                 }
                 ctx.outcome("NUTS:rows-checked", 1);
                 ctx.distinct(hash_str(&case.to_string()));
@@ -362,12 +377,12 @@ fn nuts_rows(ctx: &Ctx) {
     // multi-chain runner == its chains run individually
     let ns: Vec<usize> = if ctx.tier.thorough() { (1..=8).collect() } else { vec![1, 2, 3, 8] };
     ns.par_iter().for_each(|&n| {
-        for (c, d) in [(3usize, 2usize), (1, 0), (2, 0), (4, 3)] {
-            let case = json!({"kind": "nuts-multi", "n_chains": n, "n_collect": c, "n_discard": d});
+        for (c, d, common) in [(3usize, 2usize, false), (1, 0, false), (2, 0, true), (4, 3, true), (3, 2, true)] {
+            let case = json!({"kind": "nuts-multi", "n_chains": n, "n_collect": c, "n_discard": d, "common_start": common});
             ctx.evals(1);
             ctx.transitions(2);
             let r = catch(|| {
-                let mut a = nuts_build::<f64, BF64>(n, Some(9), false);
+                let mut a = nuts_build::<f64, BF64>(n, Some(9), common);
                 let mut b = a.clone();
                 let ta = a.run(c, d);
                 let dims = ta.dims();
@@ -375,7 +390,16 @@ fn nuts_rows(ctx: &Ctx) {
                 for ch in b.verif_chains_mut().iter_mut() {
                     solo.extend(v(&ch.run(c, d)));
                 }
-                (dims, v(&ta), solo)
+                // and once more on the same runner (continuation of every chain)
+                let tb = a.run(2, 0);
+                let mut solo2 = vec![];
+                for ch in b.verif_chains_mut().iter_mut() {
+                    solo2.extend(v(&ch.run(2, 0)));
+                }
+                let mut multi = v(&ta);
+                multi.extend(v(&tb));
+                solo.extend(solo2);
+                (dims, multi, solo)
             });
             match r {
                 Err(m) => ctx.violation(Violation::new("C09:panic(NUTS)", format!("NUTS::run({c},{d}) with {n} chains panicked: {m}"), case)),
